@@ -22,7 +22,7 @@
 
    [src_step] / [src_reset] at the end dispatch on the class: one call of __next__ / reset() as the SOURCE defines it
    (children run by the engine); [src_step_is] / [src_reset_is] collect the tie lemmas. *)
-From Isobar Require Import Base.Prelude Pat.Val Pat.Syntax Pat.Step Generated.TablesStep.
+From Isobar Require Import Base.Prelude Pat.Val Pat.Syntax Pat.Step Pat.SrcLib Generated.TablesStep.
 From Coq Require Import String QArith.
 Open Scope Z_scope.
 
@@ -51,7 +51,7 @@ Ltac split_match :=
       end
   end.
 Ltac tie_step :=
-  cbv beta iota; cbn [negb orb andb is_none];
+  cbv beta iota zeta; cbn [negb orb andb is_none];
   first [ reflexivity
         | lazymatch goal with
           | |- ?L = ?R =>
@@ -433,26 +433,76 @@ Section Tie.
     construct f CSubsequence [pattern; offset; length] = src_PSubsequence_init (reset f) value f pattern offset length.
   Proof. reflexivity. Qed.
 
-  (** classes whose __next__ is outside the translated fragment: reset() and __init__ only *)
+  (** classes that call methods of their children or of themselves: x.reset() is [areset_strict], x.all() is [aall] with
+      the default maximum LENGTH_MAX, next(self) is [step] *)
+  Notation preset := (areset_strict binop LMAX).
+  Notation pall := (fun n a => aall binop LMAX n LMAX a).
+
+  Lemma PReset_next_src f pattern trigger :
+    step (S f) (PReset pattern trigger) = src_PReset_next Val.binop value anext f preset pattern trigger.
+  Proof.
+    open_ src_PReset_next. fold (Step.areset_strict binop LMAX). tie.
+  Qed.
   Lemma PReset_reset_src f pattern trigger : reset (S f) (PReset pattern trigger) = src_PReset_reset (reset f) value f pattern trigger.
   Proof. reflexivity. Qed.
   Lemma PReset_init_src f pattern trigger : construct f CReset [pattern; trigger] = src_PReset_init (reset f) value f pattern trigger.
   Proof. reflexivity. Qed.
-  Lemma PIndexOf_reset_src f l i : reset (S f) (PIndexOf l i) = src_PIndexOf_reset (reset f) value f l i.
+
+  Lemma PPingPong_next_src f pattern count values pos dir rpos :
+    step (S f) (PPingPong pattern count values pos dir rpos) =
+    src_PPingPong_next Val.binop value anext f pattern count values pos dir rpos.
+  Proof. open_ src_PPingPong_next. tie. Qed.
+  (* super().reset(); self.pattern.reset(); self.values = self.pattern.all(); ... *)
+  Lemma PPingPong_reset_src f pattern count values pos dir rpos :
+    reset (S f) (PPingPong pattern count values pos dir rpos) =
+    src_PPingPong_reset (reset f) value f preset pall pattern count values pos dir rpos.
   Proof. reflexivity. Qed.
-  Lemma PIndexOf_init_src f l i : construct f CIndexOf [l; i] = src_PIndexOf_init (reset f) value f l i.
+  Lemma PPingPong_init_src f pattern count :
+    construct (S f) CPingPong [pattern; AV count] = src_PPingPong_init (reset f) value f preset pall pattern count.
   Proof. reflexivity. Qed.
+
+  (* try: return next(self.inputs[self.pos]) except StopIteration: .. self.pos += 1; return next(self) *)
+  Lemma PConcatenate_next_src f inputs pos :
+    step (S f) (PConcatenate inputs pos) = src_PConcatenate_next Val.binop value anext f step inputs pos.
+  Proof. open_ src_PConcatenate_next. rewrite ?zlen_update_nth. tie; rewrite ?zlen_update_nth in *; congruence. Qed.
   Lemma PConcatenate_reset_src f inputs pos : reset (S f) (PConcatenate inputs pos) = src_PConcatenate_reset (reset f) value f inputs pos.
   Proof. reflexivity. Qed.
   Lemma PConcatenate_init_src f inputs : construct f CConcatenate [inputs] = src_PConcatenate_init (reset f) value f inputs.
   Proof. reflexivity. Qed.
-  Lemma PArrayIndex_reset_src f l i e : reset (S f) (PArrayIndex l i e) = src_PArrayIndex_reset (reset f) value f l i e.
+
+  (* `list = Pattern.value(self.list)` then `item not in list` / `list.index(item)`: a list literal held by the attribute
+     is the list value (cvalue).  Step.v's clause does not special-case a DICT literal there (it declines at once), the
+     translation reads it as a value and declines at the `in`: the same outcome (Inexact) but after stepping `item` -
+     hence the hypothesis. *)
+  Lemma PIndexOf_next_src f l i :
+    (forall kv, l <> AD kv) ->
+    step (S f) (PIndexOf l i) = src_PIndexOf_next Val.binop value anext f l i.
+  Proof.
+    intro H. open_ src_PIndexOf_next. unfold cvalue, py_contains, py_list_index.
+    destruct l; try (exfalso; eapply H; reflexivity); tie.
+  Qed.
+  Lemma PIndexOf_reset_src f l i : reset (S f) (PIndexOf l i) = src_PIndexOf_reset (reset f) value f l i.
   Proof. reflexivity. Qed.
-  Lemma PArrayIndex_init_src f l i : construct f CArrayIndex [l; i] = src_PArrayIndex_init (reset f) value f l i.
+  Lemma PIndexOf_init_src f l i : construct f CIndexOf [l; i] = src_PIndexOf_init (reset f) value f l i.
   Proof. reflexivity. Qed.
+
+  (* `vdict = Pattern.value(self.dict)`, `return vdict[vkey]`: likewise with a dict literal; hypothesis: not a LIST literal *)
+  Lemma PDictKey_next_src f d k :
+    (forall l, d <> AL l) ->
+    step (S f) (PDictKey d k) = src_PDictKey_next Val.binop value anext f d k.
+  Proof.
+    intro H. open_ src_PDictKey_next. unfold cvalue, py_getitem.
+    destruct d; try (exfalso; eapply H; reflexivity); tie.
+  Qed.
   Lemma PDictKey_reset_src f d k : reset (S f) (PDictKey d k) = src_PDictKey_reset (reset f) value f d k.
   Proof. reflexivity. Qed.
   Lemma PDictKey_init_src f d k : construct f CDictKey [d; k] = src_PDictKey_init (reset f) value f d k.
+  Proof. reflexivity. Qed.
+
+  (** classes whose __next__ is outside the translated fragment: reset() and __init__ only *)
+  Lemma PArrayIndex_reset_src f l i e : reset (S f) (PArrayIndex l i e) = src_PArrayIndex_reset (reset f) value f l i e.
+  Proof. reflexivity. Qed.
+  Lemma PArrayIndex_init_src f l i : construct f CArrayIndex [l; i] = src_PArrayIndex_init (reset f) value f l i.
   Proof. reflexivity. Qed.
   Lemma PDict_reset_src f d : reset (S f) (PDict d) = src_PDict_reset (reset f) value f d.
   Proof. reflexivity. Qed.
@@ -508,6 +558,9 @@ Section Tie.
         | PDiff source current => src_PDiff_next Val.binop value anext f source current
         | PSkipIf pattern skip => src_PSkipIf_next Val.binop value anext f pattern skip
         | PWrap pattern mn mx => src_PWrap_next Val.binop value anext f f pattern mn mx
+        | PReset pattern trigger => src_PReset_next Val.binop value anext f (areset_strict binop LMAX) pattern trigger
+        | PPingPong pattern count values pos dir rpos => src_PPingPong_next Val.binop value anext f pattern count values pos dir rpos
+        | PConcatenate inputs pos => src_PConcatenate_next Val.binop value anext f step inputs pos
         | _ => step fuel p
         end
     end.
@@ -540,6 +593,9 @@ Section Tie.
       | src_PSkipIf_next => apply PSkipIf_next_src
       | src_PWrap_next => apply PWrap_next_src
       | src_PSequence_next => apply PSequence_next_src
+      | src_PReset_next => apply PReset_next_src
+      | src_PPingPong_next => apply PPingPong_next_src
+      | src_PConcatenate_next => apply PConcatenate_next_src
       | src_PAdd_next => apply PAdd_next_src
       | src_PSub_next => apply PSub_next_src
       | src_PMul_next => apply PMul_next_src
@@ -609,6 +665,8 @@ Section Tie.
         | PSkipIf pattern skip => src_PSkipIf_reset (reset f) value f pattern skip
         | PWrap pattern mn mx => src_PWrap_reset (reset f) value f pattern mn mx
         | PReset pattern trigger => src_PReset_reset (reset f) value f pattern trigger
+        | PPingPong pattern count values pos dir rpos =>
+            src_PPingPong_reset (reset f) value f (areset_strict binop LMAX) (fun n a => aall binop LMAX n LMAX a) pattern count values pos dir rpos
         | PIndexOf l i => src_PIndexOf_reset (reset f) value f l i
         | PConcatenate inputs pos => src_PConcatenate_reset (reset f) value f inputs pos
         | PArrayIndex l i e => src_PArrayIndex_reset (reset f) value f l i e
